@@ -213,4 +213,53 @@ def joinSegs : List (List Char) → List Char
   | [s] => s
   | s :: t :: rest => s ++ ':' :: ':' :: joinSegs (t :: rest)
 
+/-! ### `From<Level> for MinLevelFilter` (src/level.rs:231-235) -/
+
+/-- A bare `Level` handed to `min_level` / `default_min_level` / `min_by_path_filter` is
+    `MinLevelFilter::new(min)`: that minimum, no unleveled default. -/
+def MinF.ofLevel (l : Level) : MinF := ⟨l, none⟩
+
+/-! ### `MinLevelFilter<L>` / `MinLevelPathMap<L>` at a user level type `L` (src/level.rs:226-264, 292-386)
+
+  The code is generic in `L: for<'a> FromValue<'a> + Ord + Default`; nothing in it mentions `emit::Level`. -/
+
+/-- What the generic code uses of `L`: `FromValue::from_value` (`cast`), `>=` of its `Ord` (`ge`), `Default`. -/
+structure LevelType (L : Type) where
+  cast : LvlVal → Option L
+  ge : L → L → Bool
+  default : L
+
+/-- `MinLevelFilter<L> { min, default }` -/
+structure MinG (L : Type) where
+  min : L
+  dflt : Option L
+  deriving Repr
+
+/-- `props.pull::<L, _>("lvl").as_ref().or_else(|| self.default.as_ref()).unwrap_or(&L::default()) >= &self.min` -/
+def MinG.matches {L : Type} (T : LevelType L) (f : MinG L) (props : List (String × LvlVal)) : Bool :=
+  T.ge ((((lookupFirst "lvl" props).bind T.cast).or f.dflt).getD T.default) f.min
+
+/-- `L = emit::Level` -/
+def emitLevel : LevelType Level := ⟨LvlVal.cast, Level.ge, .info⟩
+
+/-- The trie built from (segments, payload) registrations, for any payload. -/
+def buildG {β : Type} (regs : List (List String × β)) : Node String β :=
+  regs.foldl (fun n r => Node.insert compare n r.1 r.2) Node.empty
+
+/-- `Filter for MinLevelPathMap<L>` with the selected filter's verdict abstracted as `accept`. -/
+def pathMapMatchesG {β : Type} (accept : β → Bool) (regs : List (List String × β)) (mdl : String) : Bool :=
+  match Node.lookup compare (buildG regs) (segments mdl) with
+  | none => true
+  | some f => accept f
+
+/-- The harness's user level type `Sev` (harness/hcore/src/streams/c17.rs): a syslog-style severity 0-7 where a
+    SMALLER number is MORE severe (its `Ord` is the reverse of the numeric one), read from integer values only,
+    `Default` = 6. -/
+def sevType : LevelType Nat where
+  cast
+    | .int i => if 0 ≤ i ∧ i ≤ 7 then some i.toNat else none
+    | _ => none
+  ge a b := decide (a ≤ b)
+  default := 6
+
 end EmitModel.Level
